@@ -111,3 +111,18 @@ def c01(tier, seed):
                          '--stall-ms=60000'] + extra,
                         env, cpus=6, timeout=400 * scale))
     return out
+
+
+# --------------------------------------------------------------------------------------------
+# property modules: every vp/props_*.py registers its harnesses and properties on import
+def _load_modules():
+    import importlib
+    import pkgutil
+    import os
+    here = os.path.dirname(os.path.abspath(__file__))
+    for m in sorted(pkgutil.iter_modules([here]), key=lambda m: m.name):
+        if m.name.startswith('props_'):
+            importlib.import_module(m.name)
+
+
+_load_modules()
